@@ -721,7 +721,11 @@ def probe_d2(cli):
     f = os.path.join(cli.cwd, "probe_d2")
     with open(f, "w") as fh:
         fh.write("".join(n + "\n" for n in names))
-    rc, out, err = cli.run(["-R", "exec", "-f", "1", "-N", "-w", "keep1,h1000q", "-x", "^" + f, "echo", "%h"], timeout=4)
+    args = ["-R", "exec", "-f", "1", "-N", "-w", "keep1,h1000q", "-x", "^" + f, "echo", "%h"]
+    rc, out, err = cli.run(args, timeout=5)
+    if rc == "timeout":
+        # a loaded machine is not a spinning pdsh: only a second, generous wait decides
+        rc, out, err = cli.run(args, timeout=40)
     if rc == "timeout":
         return False
     if rc == 0 and out.split() == [b"keep1"]:
